@@ -106,7 +106,13 @@ class SpotDiagram:
         Returns:
             centroid (List): centroid for each field in the data.
         """
-        norm_index = self.optic.wavelengths.primary_index
+        # reference wavelength: the primary wavelength of the lens if it is
+        # among the analysed wavelengths, else the first analysed wavelength
+        primary = self.optic.primary_wavelength
+        if primary in self.wavelengths:
+            norm_index = list(self.wavelengths).index(primary)
+        else:
+            norm_index = 0
         centroid = []
         for field_data in self.data:
             centroid_x = np.mean(field_data[norm_index][0])
